@@ -204,7 +204,57 @@ fn must_admit(cfgname: &str, user: &str, db: &str, variant: &str, admin_only: bo
     Some(variant == "correct")
 }
 
+/// The challenge must be fresh on every connection: 96 connections (pool user and admin) are opened up to
+/// the MD5 challenge; no salt may be issued twice (a repeat makes a recorded response replayable; with
+/// 32 random bits a repeat among 96 has probability 1e-6).
+pub fn salt_scenario() -> Scenario {
+    let cfg = Cfg::one(PoolCfg::simple("db", "transaction", 1, 1, 0));
+    let servers = cfg.servers();
+    let mut s = Script::new("c0");
+    for i in 0..96 {
+        let (user, db) = if i % 3 == 2 { ("admin_user", "pgcat") } else { ("alice", "db") };
+        s = s.step(Step::Open).send(wire::startup(&[("user", user), ("database", db)]), "startup").wait(Cond::Msgs(1)).close(CloseKind::HardDrop);
+    }
+    Scenario {
+        name: "C09 salts: 96 connections up to the MD5 challenge".into(),
+        toml: cfg.toml(),
+        alt_tomls: vec![],
+        servers,
+        actors: vec![s.actor()],
+        opts: Opts { max_events: 1000, ..Opts::default() },
+        meta: serde_json::json!({"salts": true}),
+    }
+}
+
+fn salt_oracle(out: &Outcome) -> Vec<Violation> {
+    let mut seen: std::collections::BTreeMap<Vec<u8>, usize> = std::collections::BTreeMap::new();
+    let mut n = 0;
+    for e in &out.log {
+        if let Rec::CRecv { c: 0, msg } = &e.rec {
+            if msg.code == b'R' && msg.body.len() == 8 && msg.body[..4] == [0, 0, 0, 5] {
+                n += 1;
+                *seen.entry(msg.body[4..8].to_vec()).or_insert(0) += 1;
+            }
+        }
+    }
+    let mut vs = Vec::new();
+    if let Some((salt, k)) = seen.iter().find(|(_, k)| **k > 1) {
+        vs.push(v(
+            "C09.salt-reused",
+            "C09.salt-reused".to_string(),
+            format!("{} MD5 challenges were issued with only {} distinct salts; salt {:02x?} was issued {} times: a recorded password response can be replayed", n, seen.len(), salt, k),
+        ));
+    }
+    if n < 90 {
+        vs.push(v("C09.salt-scenario", "C09.salt-scenario-incomplete".to_string(), format!("only {} MD5 challenges were observed", n)));
+    }
+    vs
+}
+
 pub fn oracle(sc: &Scenario, out: &Outcome) -> Vec<Violation> {
+    if sc.meta.get("salts").is_some() {
+        return salt_oracle(out);
+    }
     let log = &out.log;
     let mut vs = Vec::new();
     let m = &sc.meta;
@@ -274,12 +324,13 @@ pub fn build(tier: &str) -> SimCheck {
             }
         }
     }
+    scenarios.push(salt_scenario());
     SimCheck {
         scenarios,
         oracle: Box::new(oracle),
         bound: 0,
         limits: Limits { max_wall_s: if thorough { 1500.0 } else { 50.0 }, ..Default::default() },
-        rule: "scenario = auth configuration (cleartext, trust, auth_query with hash present / absent / server down at pool creation / changed later) x startup (db,user) pair (configured, other user, unknown user/db, admin db in two spellings, non-admin user on the admin db, user only) x message sent in place of PasswordMessage (18 kinds incl. replayed salt, truncated, oversized, wrong type) followed at once by a tagged query x shutting down or not; verdict compared with the reference admission predicate".into(),
+        rule: "scenario = auth configuration (cleartext, trust, auth_query with hash present / absent / server down at pool creation / changed later) x startup (db,user) pair (configured, other user, unknown user/db, admin db in two spellings, non-admin user on the admin db, user only) x message sent in place of PasswordMessage (18 kinds incl. replayed salt, truncated, oversized, wrong type) followed at once by a tagged query x shutting down or not; verdict compared with the reference admission predicate; plus 96 connections opened up to the MD5 challenge: no salt issued twice".into(),
         assumptions: vec!["TLS startup not exercised".into()],
     }
 }
